@@ -289,6 +289,15 @@ class EvalMixin:
 
     def list_append(self, st, ref, val):
         c = st.store[ref.id]
+        val = self.lift(val)
+        if isinstance(val, OptV) and c.t.args[0].kind != 'opt':
+            # an optional value stored in a list of plain values: fine when None is excluded on this path
+            # (e.g. after `if x is None: continue`); otherwise the typed model cannot represent the list
+            alt = st.fork()
+            alt.pc.append(val.none)
+            if self.feasible(alt):
+                raise OutOfSubset('possibly-None value appended to a %r' % (c.t,))
+            val = val.val
         try:
             pv = pack(st, val, c.t.args[0])
         except TypeError as e:
